@@ -114,6 +114,10 @@ fn new_koto() -> Koto {
     // no file system, no processes, no blocking reads
     koto.prelude().remove("io");
     koto.prelude().remove("os");
+    // serialisation entry points (they traverse values: cyclic / very deep values must not abort)
+    koto.prelude().insert("json", koto_json::make_module());
+    koto.prelude().insert("yaml", koto_yaml::make_module());
+    koto.prelude().insert("toml", koto_toml::make_module());
     koto
 }
 
